@@ -104,13 +104,31 @@ func runCase(c Case) error {
 	if err := m.WriteHeader(c.HasVideo, c.HasAudio); err != nil {
 		return fmt.Errorf("WriteHeader: %v", err)
 	}
+	// the bodies handed to the muxer are windows into one buffer of the application (as when
+	// frames are cut out of a received packet): each has spare capacity that belongs to the
+	// application - the next body - and none of it may change
+	var arena []byte
+	for _, t := range want {
+		arena = append(arena, t.Body...)
+	}
+	arena = append(arena, "guard bytes after the last body"...)
+	pristine := append([]byte(nil), arena...)
+	off := 0
 	for i, t := range want {
-		if err := m.WriteTag(flv.TagType(t.Type), t.Timestamp, t.Body); err != nil {
+		if err := m.WriteTag(flv.TagType(t.Type), t.Timestamp, arena[off:off+len(t.Body)]); err != nil {
 			return fmt.Errorf("WriteTag %d: %v", i, err)
 		}
+		off += len(t.Body)
 	}
 	if err := m.Close(); err != nil {
 		return err
+	}
+	if !bytes.Equal(arena, pristine) {
+		i := 0
+		for arena[i] == pristine[i] {
+			i++
+		}
+		return fmt.Errorf("WriteTag changed the application's buffer around the body it was given (offset %d of the buffer the %d bodies were cut from)", i, len(want))
 	}
 	ref := flvref.Write(c.HasVideo, c.HasAudio, want)
 	if !bytes.Equal(buf.Bytes(), ref) {
